@@ -35,7 +35,22 @@
 (* that left the ring never comes back (one Host object per host number).       *)
 (*                                                                              *)
 (* Deviations.  Where the code as built breaks a property the action has two    *)
-(* branches selected by the constant Fixed (name present = repaired behaviour). *)
+(* branches selected by the constant Fixed (name present = repaired behaviour): *)
+(*   D_handler_close  _ReconnectionHandler.run closes, in `finally`, the         *)
+(*                    connection its on_reconnection has just installed as the   *)
+(*                    control connection (breaks InstalledOpen)                  *)
+(*   D_lost_refresh   _signal_error turns a refresh that failed on a defunct     *)
+(*                    connection into a down signal for its host and relies on   *)
+(*                    on_down to reconnect; on_down may do nothing (breaks Fresh)*)
+(*   D_func_dedup     FUNCTION / AGGREGATE schema events carry descriptor        *)
+(*                    objects without __eq__: schedule_unique never recognises   *)
+(*                    a repetition (breaks OnePending)                           *)
+(* findings/XEVENTS_*.py reproduce them on the real classes.                    *)
+(*                                                                              *)
+(* Scenarios.  The bounds are fields of a record chosen in Init (sc), so that   *)
+(* one TLC run explores several small configurations (a cfg file cannot spell   *)
+(* records: harness/replay/controlevents.py generates a two-line module that    *)
+(* defines the set).                                                            *)
 EXTENDS Integers, Sequences, FiniteSets, TLC
 
 CONSTANTS Scenarios,   \* the configurations explored in one run: set of records (fields below); a behaviour keeps the one it starts with
@@ -60,7 +75,7 @@ VARIABLES cs,          \* driver state, one record (fields below)
           ring,        \* true membership
           ever,        \* hosts that have ever been members
           alive,       \* members accepting new connections
-          budget,      \* [ev, ring, fault, beat] used so far
+          budget,      \* [ev, nring, fault, beat] used so far
           phase,       \* 0 running, 1 cluster.is_shutdown + scheduler shut, 2 control connection shut, 3 executor shut
           frozen,      \* history: [sched, known, up] as of ShutA / ShutB
           act          \* the last action
@@ -306,7 +321,7 @@ Init ==
              lbp |-> Ring0, hrec |-> {}, ctl |-> [h |-> 1, st |-> "open"], chand |-> FALSE,
              exec |-> EmptyBag, sched |-> EmptyBag, rcs |-> EmptyBag, em |-> <<>>, nrem |-> [h \in Hosts |-> 0]]
     /\ ring = Ring0 /\ ever = Ring0 /\ alive = Ring0
-    /\ budget = [ev |-> 0, ring |-> 0, fault |-> 0, beat |-> 0]
+    /\ budget = [ev |-> 0, nring |-> 0, fault |-> 0, beat |-> 0]
     /\ phase = 0
     /\ frozen = [sched |-> EmptyBag, known |-> {}, up |-> [h \in Hosts |-> "N"]]
     /\ act = A("Init", NoT, NoR, "", 0, "", 0, FALSE, FALSE)
@@ -346,21 +361,21 @@ Push(c, kind, h, x) ==
 
 (* a node joins: every open registered connection gets NEW_NODE *)
 RingAdd(h) ==
-    /\ budget.ring < MaxRing
+    /\ budget.nring < MaxRing
     /\ h \in Hosts \ ever
     /\ ring' = ring \cup {h} /\ ever' = ever \cup {h} /\ alive' = alive \cup {h}
-    /\ budget' = [budget EXCEPT !.ring = @ + 1]
+    /\ budget' = [budget EXCEPT !.nring = @ + 1]
     /\ Commit(IF OpenConns(cs) = {} THEN Cur ELSE Deliver(Cur, [kind |-> "NEW", h |-> h, x |-> ""]))
     /\ act' = A("RingAdd", NoT, NoR, "NEW", h, "", 0, OpenConns(cs) # {}, Dup([kind |-> "NEW", h |-> h, x |-> ""]))
     /\ UNCHANGED <<sc, phase, frozen>>
 
 (* a node leaves for good (the driver has no open connection to it): REMOVED_NODE on every open registered connection *)
 RingRemove(h) ==
-    /\ budget.ring < MaxRing
+    /\ budget.nring < MaxRing
     /\ h \in ring /\ ring # {h}
     /\ h \notin OpenConns(cs)
     /\ ring' = ring \ {h} /\ alive' = alive \ {h}
-    /\ budget' = [budget EXCEPT !.ring = @ + 1]
+    /\ budget' = [budget EXCEPT !.nring = @ + 1]
     /\ Commit(IF OpenConns(cs) = {} THEN Cur ELSE Deliver(Cur, [kind |-> "REMOVED", h |-> h, x |-> ""]))
     /\ act' = A("RingRemove", NoT, NoR, "REMOVED", h, "", 0, OpenConns(cs) # {}, Dup([kind |-> "REMOVED", h |-> h, x |-> ""]))
     /\ UNCHANGED <<sc, ever, phase, frozen>>
@@ -500,7 +515,7 @@ Witness_ShutMidSwitch  == ~(phase >= 2 /\ \E r \in DOMAIN rcs : r.conn # 0)
 Witness_RefreshFails   == ~(act.name = "Exec" /\ act.t.k \in {"Refresh", "RefreshIf"} /\ ctl.st = "defunct" /\ InExec("OnDown"))
 Witness_RetryLoop      == ~(act.name = "RcStep" /\ act.kind = "nohost" /\ act.r.via = "handler" /\ ~SchedShut)
 Witness_RemovedByEvent == ~(act.name = "Exec" /\ act.t.k = "RemoveHost" /\ act.t.h # 0 /\ nrem[act.t.h] = 1)
-Witness_FreshAfterLoss == ~(phase = 0 /\ Idle /\ ctl.st = "open" /\ ring # Ring0 /\ ToSet(known) = ring /\ budget.ring >= 1
+Witness_FreshAfterLoss == ~(phase = 0 /\ Idle /\ ctl.st = "open" /\ ring # Ring0 /\ ToSet(known) = ring /\ budget.nring >= 1
                             /\ \E h \in Hosts : h \in ring \ Ring0)
 
 (* evaluated on every state of a run with CONSTRAINT RecordWitnesses (-workers 1); POSTCONDITION PrintWitnesses *)
